@@ -101,7 +101,7 @@ fn check_step(vm: &mut Vm, s: &ScriptStep) -> Option<StepFailure> {
             Ok(Ok(c)) if want.matches(&cell_to_sx(&c)) => {}
             other => {
                 return Some(StepFailure {
-                    kind: "wrong-result",
+                    kind: "post-relation-failed",
                     detail: format!("after {}: {} => {:?}, expected {}", s.form, form, other.map(|r| show(&r)), want),
                 });
             }
